@@ -37,6 +37,7 @@ fn main() {
         "run" => cmd_run(&args),
         "replay" => cmd_replay(&args),
         "fingerprints" => cmd_fingerprints(&args),
+        "history-search" => cmd_history_search(&args),
         "show" => cmd_show(&args),
         "refint-selftest" => {
             let seed = arg(&args, "--seed").and_then(|s| s.parse().ok()).unwrap_or(1);
@@ -285,7 +286,7 @@ fn write_sweep_replay(job: &SweepJob, class: &str, detail: &str) -> String {
     }
     let dir = replay_dir();
     let _ = std::fs::create_dir_all(&dir);
-    let path = format!("{}/C20-{}-sweep-{}-{}-{}-{}.json", dir, BUILD, job.ty.replace(['<', '>'], "_"), json::hex(&job.low), json::hex(&job.high_incl), class);
+    let path = format!("{}/C20-{}-sweep-{}-{}-{}-{}-p{}-{}.json", dir, BUILD, job.ty.replace(['<', '>'], "_"), json::hex(&job.low), json::hex(&job.high_incl), job.entry.name().replace(['(', ')', '.', '=', ' '], ""), job.preamble, class);
     std::fs::write(&path, j.to_string_pretty()).expect("write replay");
     path
 }
@@ -306,7 +307,10 @@ fn sweep_jobs(menu: &[Box<dyn TyObj>], seed: u64, t: &Tier) -> Vec<SweepJob> {
                 if e.exclusive() && high == max {
                     continue;
                 }
-                jobs.push(SweepJob { ty: ty.name().to_string(), low: low.clone(), high_incl: high.clone(), entry: e });
+                let k = jobs.len() as u64;
+                // one sweep in four follows a fault history on the same bounds (crash, then verify)
+                let preamble = if k % 4 == 1 { 1 + ((k / 4) % 4) as u8 } else { 0 };
+                jobs.push(SweepJob { ty: ty.name().to_string(), low: low.clone(), high_incl: high.clone(), entry: e, preamble });
             }
         };
         if w == 1 {
@@ -336,7 +340,7 @@ fn sweep_jobs(menu: &[Box<dyn TyObj>], seed: u64, t: &Tier) -> Vec<SweepJob> {
                 let low = min.clone();
                 let high = refint::add(&low, &refint::from_u64(r - 1, 2));
                 for e in [Entry::UniInc, Entry::SingleInc] {
-                    jobs.push(SweepJob { ty: ty.name().to_string(), low: low.clone(), high_incl: high.clone(), entry: e });
+                    jobs.push(SweepJob { ty: ty.name().to_string(), low: low.clone(), high_incl: high.clone(), entry: e, preamble: 0 });
                 }
             }
         }
@@ -426,6 +430,84 @@ fn cmd_run(args: &[String]) -> i32 {
         let path = write_run_replay(&small, class, &v.detail, seed, *run, &format!("minimised from {} op(s) / {} call(s) in {} executions", spec.ops.len() + spec.tasks.iter().map(|t| t.ops.len()).sum::<usize>(), planned, sh.execs));
         violations.push(J::obj().set("class", J::s(class)).set("type", J::s(&small.ty)).set("detail", J::s(&v.detail)).set("replay", J::s(&path)).set("build", J::s(BUILD)).set("kind", J::s("run")));
     }
+    // Failures of interleaved-tasks runs that come and go: the state that made them fail was left behind by EARLIER runs
+    // of this process (a multi-entry cache, say). Recover a history that replays: in a fresh child process execute the
+    // tasks runs serially in index order (deterministic there) up to the first one that fails, then find the shortest
+    // suffix of that history which still makes it fail in a fresh process, then drop runs from it greedily.
+    let tasks_failed_alone = violations.iter().any(|v| matches!(v.get("class").and_then(|c| c.str()), Some("schedule_dependence") | Some("order_dependence")));
+    let tasks_come_and_go = unreproduced.iter().any(|u| u.contains("_dependence"));
+    let mut fresh_ok = false;
+    if tasks_come_and_go && !tasks_failed_alone {
+        // first: the candidates themselves, each alone in a FRESH process (this one's hidden state is no longer pristine)
+        let dir = replay_dir();
+        let _ = std::fs::create_dir_all(&dir);
+        for u in unreproduced.iter().filter(|u| u.contains("_dependence")).take(6) {
+            // "run <idx> (<class>): ..."
+            let f: Vec<&str> = u.split_whitespace().collect();
+            let (Some(idx), Some(class)) = (f.get(1).and_then(|x| x.parse::<u64>().ok()), f.get(2).map(|c| c.trim_matches(|ch| ch == '(' || ch == ')' || ch == ':').to_string())) else { continue };
+            let spec = gen::make_run(seed, idx, &menu);
+            let path = format!("{}/C20-{}-{}-{}-history-{}.json", dir, BUILD, seed, idx, class);
+            if history_reproduces(std::slice::from_ref(&spec), &class, &path) {
+                let exe = std::env::current_exe().expect("current_exe");
+                let detail = std::process::Command::new(exe).args(["replay", &path]).output().ok().and_then(|o| String::from_utf8(o.stdout).ok()).and_then(|s| s.lines().find(|l| l.starts_with("REPRODUCED")).map(|l| l.to_string())).unwrap_or_default();
+                reported += 1;
+                fresh_ok = true;
+                violations.push(J::obj().set("class", J::s(&class)).set("type", J::s(&spec.ty)).set("detail", J::s(&format!("run {} executed alone in a fresh process (it did not fail again inside the exploring process, whose hidden state was no longer pristine): {}", idx, detail))).set("replay", J::s(&path)).set("build", J::s(BUILD)).set("kind", J::s("history")));
+                break;
+            }
+        }
+    }
+    if tasks_come_and_go && !tasks_failed_alone && !fresh_ok {
+        let exe = std::env::current_exe().expect("current_exe");
+        let t_h = Instant::now();
+        let out = std::process::Command::new(&exe).args(["history-search", "--seed", &seed.to_string(), "--from", &from.to_string(), "--to", &(from + t.runs).to_string()]).output();
+        let first = out.ok().and_then(|o| String::from_utf8(o.stdout).ok()).and_then(|s| s.lines().find(|l| l.starts_with("FIRST ")).map(|l| l.to_string()));
+        if let Some(line) = first {
+            let f: Vec<&str> = line.split_whitespace().collect();
+            let idx: u64 = f[1].parse().unwrap_or(0);
+            let class = f[2].to_string();
+            let all: Vec<RunSpec> = (from..=idx).map(|r| gen::make_run(seed, r, &menu)).filter(|s| !s.tasks.is_empty()).collect();
+            let dir = replay_dir();
+            let _ = std::fs::create_dir_all(&dir);
+            let path = format!("{}/C20-{}-{}-{}-history-{}.json", dir, BUILD, seed, idx, class);
+            // shortest power-of-two suffix that reproduces
+            let mut k = 1usize;
+            let mut cur: Option<Vec<RunSpec>> = None;
+            while k <= all.len() * 2 {
+                let suffix = all[all.len().saturating_sub(k)..].to_vec();
+                if history_reproduces(&suffix, &class, &path) {
+                    cur = Some(suffix);
+                    break;
+                }
+                k *= 2;
+            }
+            if let Some(mut hist) = cur {
+                // greedy: drop chunks (halves, quarters, ... singles) of the predecessors while it still fails; time-capped
+                let mut chunk = (hist.len() - 1).max(1) / 2;
+                while chunk >= 1 && t_h.elapsed().as_secs() < 240 {
+                    let mut st = 0;
+                    while st + 1 < hist.len() && t_h.elapsed().as_secs() < 240 {
+                        let en = (st + chunk).min(hist.len() - 1);
+                        let mut c = hist.clone();
+                        c.drain(st..en);
+                        if en > st && history_reproduces(&c, &class, &path) {
+                            hist = c;
+                        } else {
+                            st += chunk;
+                        }
+                    }
+                    chunk /= 2;
+                }
+                if history_reproduces(&hist, &class, &path) {
+                    // the detail of the violation as seen at the end of the history, from the child's output
+                    let exe = std::env::current_exe().expect("current_exe");
+                    let detail = std::process::Command::new(exe).args(["replay", &path]).output().ok().and_then(|o| String::from_utf8(o.stdout).ok()).and_then(|s| s.lines().find(|l| l.starts_with("REPRODUCED")).map(|l| l.to_string())).unwrap_or_default();
+                    reported += 1;
+                    violations.push(J::obj().set("class", J::s(&class)).set("type", J::s(&hist.last().unwrap().ty)).set("detail", J::s(&format!("history of {} interleaved-tasks run(s) executed in order in a fresh process (found by a serial pass over runs {}..={}, minimised from {}): {}", hist.len(), from, idx, all.len(), detail))).set("replay", J::s(&path)).set("build", J::s(BUILD)).set("kind", J::s("history")));
+                }
+            }
+        }
+    }
     if reported == 0 {
         harness_errors.extend(unreproduced.iter().cloned());
     }
@@ -435,6 +517,7 @@ fn cmd_run(args: &[String]) -> i32 {
     let mut sweep_stats: BTreeMap<String, (u64, u64, u64, u64)> = BTreeMap::new(); // key -> (jobs, words, accepted, rejected)
     let mut sweep_samples: Vec<J> = Vec::new();
     let mut inapplicable: Vec<String> = Vec::new();
+    let mut sweeps_after_faults = 0u64;
     if !skip_sweeps {
         let jobs = sweep_jobs(&menu, seed, &t);
         let (small_jobs, big_jobs): (Vec<_>, Vec<_>) = jobs.into_iter().partition(|j| by_name(&menu, &j.ty).unwrap().bytes() < 4);
@@ -465,6 +548,9 @@ fn cmd_run(args: &[String]) -> i32 {
             all.push((job, o));
         }
         let mut seen_sweep = BTreeSet::new();
+        // a violation found after a fault preamble carries its history in the replay file: report those first
+        all.sort_by_key(|(job, o)| if o.violation.is_some() && job.preamble != 0 { 0 } else { 1 });
+        sweeps_after_faults = all.iter().filter(|(j, _)| j.preamble != 0).count() as u64;
         for (job, o) in all.iter() {
             let key = format!("{} bits / {}", o.wbits, job.ty);
             let e = sweep_stats.entry(key).or_insert((0, 0, 0, 0));
@@ -478,7 +564,7 @@ fn cmd_run(args: &[String]) -> i32 {
             if let Some(v) = &o.violation {
                 if seen_sweep.insert((v.class, job.ty.clone(), job.entry)) && seen_sweep.len() <= 6 {
                     let path = write_sweep_replay(job, v.class, &v.detail);
-                    violations.push(J::obj().set("class", J::s(v.class)).set("type", J::s(&job.ty)).set("detail", J::s(&format!("{} on [{}, {}]: {}", job.entry.name(), json::hex(&job.low), json::hex(&job.high_incl), v.detail))).set("replay", J::s(&path)).set("build", J::s(BUILD)).set("kind", J::s("sweep")));
+                    violations.push(J::obj().set("class", J::s(v.class)).set("type", J::s(&job.ty)).set("detail", J::s(&format!("{} on [{}, {}]{}: {}", job.entry.name(), json::hex(&job.low), json::hex(&job.high_incl), ["", " after one call on the same bounds in which the RNG panicked on the first draw", " after one call on the same bounds in which the RNG reported an error on the first draw", " after one call on the same bounds in which the RNG delivered an all-ones word and panicked on the next draw", " after one call on the same bounds in which the RNG delivered a zero word and panicked on the next draw"][(job.preamble as usize).min(4)], v.detail))).set("replay", J::s(&path)).set("build", J::s(BUILD)).set("kind", J::s("sweep")));
                 }
             } else if sweep_samples.len() < 6 && (o.rejected > 0 || sweep_samples.len() < 2) && o.wbits >= 16 {
                 sweep_samples.push(job.to_json().set("words", J::Int(o.words as i128)).set("accepted", J::Int(o.accepted as i128)).set("rejected", J::Int(o.rejected as i128)).set("equal_fibre_size", J::Int(o.fibre as i128)));
@@ -630,6 +716,7 @@ fn cmd_run(args: &[String]) -> i32 {
         .set("counters", counters)
         .set("runs_per_type", per_type)
         .set("sweeps", sweeps)
+        .set("sweeps_after_fault_preamble", J::Int(sweeps_after_faults as i128))
         .set("sweep_samples", J::Arr(sweep_samples))
         .set("sweeps_inapplicable", J::Arr(inapplicable.iter().take(5).map(|s| J::s(s)).collect()))
         .set("determinism_selftest_runs", J::Int(dn as i128))
@@ -662,6 +749,44 @@ fn cmd_run(args: &[String]) -> i32 {
     } else {
         0
     }
+}
+
+/// child-process helper: execute the interleaved-tasks runs of an index range one after the other on the main thread
+/// (deterministic in a fresh process) and print the first one that shows a schedule / order dependence
+fn cmd_history_search(args: &[String]) -> i32 {
+    let seed: u64 = arg(args, "--seed").and_then(|s| s.parse().ok()).unwrap_or(20);
+    let from: u64 = arg(args, "--from").and_then(|s| s.parse().ok()).unwrap_or(0);
+    let to: u64 = arg(args, "--to").and_then(|s| s.parse().ok()).unwrap_or(0);
+    let menu = types::menu();
+    for run in from..to {
+        let spec = gen::make_run(seed, run, &menu);
+        if spec.tasks.is_empty() {
+            continue;
+        }
+        let r = exec::run(&spec, by_name(&menu, &spec.ty).unwrap(), false);
+        if let Some(v) = r.violations.iter().find(|v| v.class == "schedule_dependence" || v.class == "order_dependence") {
+            println!("FIRST {} {}", run, v.class);
+            return 1;
+        }
+    }
+    println!("NONE");
+    0
+}
+
+/// write a history replay file (explicit specs) and run it in a fresh child process; true if the last run fails there
+fn history_reproduces(specs: &[RunSpec], class: &str, path: &str) -> bool {
+    let j = J::obj()
+        .set("property", J::s("C20"))
+        .set("format", J::i(1))
+        .set("kind", J::s("history"))
+        .set("build", J::s(BUILD))
+        .set("violation", J::obj().set("class", J::s(class)).set("detail", J::s("")))
+        .set("history", J::Arr(specs.iter().map(|s| s.to_json()).collect()));
+    if std::fs::write(path, j.to_string_pretty()).is_err() {
+        return false;
+    }
+    let exe = std::env::current_exe().expect("current_exe");
+    matches!(std::process::Command::new(exe).args(["replay", path]).output(), Ok(o) if o.status.code() == Some(1))
 }
 
 fn cmd_fingerprints(args: &[String]) -> i32 {
@@ -765,6 +890,39 @@ fn cmd_replay(args: &[String]) -> i32 {
     let class = j.get("violation").and_then(|v| v.get("class")).and_then(|x| x.str()).unwrap_or("").to_string();
     let menu = types::menu();
     match j.get("kind").and_then(|x| x.str()) {
+        Some("history") => {
+            // a sequence of complete runs executed in order in this (fresh) process: the last one must show the violation
+            let Some(runs) = j.get("history").and_then(|x| x.arr()) else { return 2 };
+            let mut last: Option<exec::RunResult> = None;
+            for (i, r) in runs.iter().enumerate() {
+                let spec = match RunSpec::from_json(r) {
+                    Ok(x) => x,
+                    Err(e) => {
+                        eprintln!("bad history entry {}: {}", i, e);
+                        return 2;
+                    }
+                };
+                let Some(ty) = by_name(&menu, &spec.ty) else { return 2 };
+                if !exec::valid(&spec, ty) {
+                    return 2;
+                }
+                last = Some(exec::run(&spec, ty, i + 1 == runs.len()));
+            }
+            let Some(r) = last else { return 2 };
+            for l in &r.log {
+                println!("{}", l);
+            }
+            match r.violations.iter().find(|v| v.class == class || class.is_empty()) {
+                Some(v) => {
+                    println!("REPRODUCED class={} after {} preceding run(s) in this process :: {}", v.class, runs.len() - 1, v.detail);
+                    1
+                }
+                None => {
+                    println!("NOT-REPRODUCED the last of {} runs shows no {} violation", runs.len(), class);
+                    0
+                }
+            }
+        }
         Some("sweep") => {
             let job = match SweepJob::from_json(&j) {
                 Ok(x) => x,
